@@ -317,8 +317,14 @@ def body_sexpr(toks):
         if not stmts:
             return "(unit)"
         last = stmts.pop()
-        if len(last) > 4 and [x[1] for x in last[:4]] == ["self", ".", "raw_value", "="]:
+        lt = [x[1] for x in last]
+        if len(last) > 4 and lt[:4] == ["self", ".", "raw_value", "="]:
             value = "(self_with %s)" % P(last[4:]).whole_expr()
+        elif len(lt) >= 8 and lt[:6] == ["*", "self", "=", "self", ".", lt[5]] and lt[5].startswith("with_") and lt[6] == "(" and lt[-1] == ")" \
+                and lt[7:-1] in (["field_value"], ["index", ",", "field_value"]) and not stmts:
+            # `*self = self.with_x(field_value)` / `…(index, field_value)`: the setter forwards to the `with_` method of the same
+            # field with its own parameters; its new raw value is that method's (resolved by the caller)
+            value = "(forward %s)" % lt[5]
         else:
             value = "(opaque stmt %s)" % " ".join(x[1] for x in last)
     for st in reversed(stmts):
